@@ -39,7 +39,7 @@ def _diff_kind(op, post, allowed, obs):
     arg_v = {a for a in op[1:] if isinstance(a, int)}
     for i, (a, b) in enumerate(zip(post["vl"], exp["vl"])):
         if a != b:
-            if sorted(a) == sorted(b):
+            if sorted(a, key=repr) == sorted(b, key=repr):
                 kinds.append("order-of-some-vertex-links")
             else:
                 kinds.append("links-of-some-vertex")
